@@ -1321,6 +1321,14 @@ func stress(seconds float64, workers int, target int64, mix, chaos, oneq bool, s
 
 // ---------------------------------------------------------------- main
 
+func isCopyReplay(path string) bool {
+	var probe []struct {
+		Copy bool `json:"copy"`
+	}
+	data, err := os.ReadFile(path)
+	return err == nil && json.Unmarshal(data, &probe) == nil && len(probe) > 0 && probe[0].Copy
+}
+
 func main() {
 	seed := flag.Uint64("seed", 1, "")
 	n := flag.Int("n", 100, "number of random cases")
@@ -1334,6 +1342,7 @@ func main() {
 	around := flag.Int("around", -1, "exploration depth at the hold points of each shape (0 = the three continuation policies only, -1 = off)")
 	aroundRuns := flag.Int("around-runs", 40, "")
 	flag.IntVar(&maxHung, "max-hung", 3, "stop generating after this many hung runs")
+	copyN := flag.Int("copy", 0, "copy mode: number of hand-ticked multi-queue copy cases")
 	stressS := flag.Float64("stress", 0, "run the un-instrumented stress loop for this many seconds")
 	stressW := flag.Int("workers", 8, "")
 	stressMix := flag.Bool("mix", false, "stress: asynchronous commands and a shared queue as well")
@@ -1348,6 +1357,20 @@ func main() {
 	switch {
 	case *stressS > 0 || *stressN > 0:
 		result = stress(*stressS, *stressW, *stressN, *stressMix, *stressChaos, *stressOneQ, *seed)
+	case *copyN > 0:
+		result = copyCases(*seed, *copyN)
+	case *replay != "" && isCopyReplay(*replay):
+		var cases []*CopyCase
+		data, _ := os.ReadFile(*replay)
+		if err := json.Unmarshal(data, &cases); err != nil {
+			fmt.Fprintln(os.Stderr, err)
+			os.Exit(2)
+		}
+		for _, c := range cases {
+			c.Stuck, c.BadData, c.IdleRunning, c.Panic, c.Answers, c.InFlight = "", "", "", "", 0, 0
+			runCopyCase(c)
+		}
+		result = cases
 	case *replay != "":
 		var cases []*Case
 		data, err := os.ReadFile(*replay)
